@@ -14,7 +14,9 @@ TEXT = [  # value classes of the quantifier (single-line, no leading/trailing bl
 ]
 PCT = {"relname": "100%% pure %(arch)s", "relshort": "P%", "relver": "22", "bpname": "b%", "bpshort": "B", "bpver": "7", "vname": "%s %%"}
 IDS = [{"A": "Server", "B": "Client", "S": "Server", "o": "optional", "T": "Tools", "h": "HighAvailability", "g": "Extras"},
-       {"A": "a", "B": "B9", "S": "Z", "o": "optional", "T": "t", "h": "H", "g": "0"}]
+       {"A": "a", "B": "B9", "S": "Z", "o": "optional", "T": "t", "h": "H", "g": "0"},
+       # a top-level variant and a child below another one share their id (HA next to Server-HA): UIDs stay distinct
+       {"A": "Server", "B": "HA", "S": "S", "o": "optional", "T": "T", "h": "HA", "g": "HA"}]
 ARCHS = [("x86_64", "xen", "lpae"), ("ppc64le", "p8", "b"), ("aarch64", "X", "y"), ("i386", "xen-pv", "xen"), ("armhfp", "omap", "tegra")]   # a platform name may contain dashes
 IMG = {"boot": "images/boot.iso", "kernel": "images/pxeboot/vmlinuz", "xenkernel": "images/pxeboot/vmlinuz-xen", "initrd": "images/Initrd.IMG",
        "stage2": "LiveOS/squashfs.img", "inst": "images/install.img"}
